@@ -1,3 +1,4 @@
+mod alphabet;
 mod chain;
 mod gen;
 mod matrix;
@@ -555,8 +556,9 @@ fn main() {
         Some("shrink") => cmd_shrink(&args[2..]),
         Some("pure") => pure::cmd_pure(&args[2..]),
         Some("matrix") => matrix::cmd_matrix(&args[2..]),
+        Some("alphabet") => alphabet::cmd_alphabet(),
         _ => {
-            eprintln!("usage: krp-harness replay|gen|shrink|pure|matrix ...");
+            eprintln!("usage: krp-harness replay|gen|shrink|pure|matrix|alphabet ...");
             std::process::exit(2);
         }
     }
